@@ -22,7 +22,7 @@ def asbuilt(pid):
     e=ev.get(pid)
     if e:
         cv=e['coverage']
-        out.append("Last quick run on the current tree: %s states, %s transitions, %s executions (%s non-trivial), %.0f s wall." % (cv.get('states'), cv.get('transitions'), cv.get('evaluations'), cv.get('distinct_nontrivial'), e.get('wall_s',0)))
+        out.append("Last run on the current tree (%s tier%s): %s states, %s transitions, %s executions (%s non-trivial), %.0f s wall." % (e.get('tier'), '' if cv.get('exhaustive', True) else ', budget hit', cv.get('states'), cv.get('transitions'), cv.get('evaluations'), cv.get('distinct_nontrivial'), e.get('wall_s',0)))
     kf=[k for k in known if k['property']==pid and k.get('kind')=='finding']
     fx=[k for k in known if k['property']==pid and k.get('kind')=='fixed']
     if kf:
